@@ -151,7 +151,13 @@ class Inner:
         ctx, S0 = it.ctx, self.c.S0
         ind, q = env['indegree_map'], env['queue']
         self.base = (ind.dom, ind.val, q.member)
-        cur = it.label_term(it.getattr(env['current_elem'], 'label'))
+        # the gate whose successors are scanned: the argument of the getter call the loop iterates (role, not the local's name)
+        import ast as _ast
+        nm = 'current_elem'
+        st_ = getattr(self, 'stmt', None)
+        if (st_ is not None and isinstance(getattr(st_, 'iter', None), _ast.Call) and len(st_.iter.args) == 1 and isinstance(st_.iter.args[0], _ast.Name)):
+            nm = st_.iter.args[0].id
+        cur = it.label_term(it.getattr(env[nm], 'label'))
         self.cur = cur
         Ghost._n += 1
         pcu = z3.Function(f'pcu!{Ghost._n}', I, LabelSort, I)
